@@ -202,8 +202,19 @@ def build_linearity(ck):
         ci = P.cls(clsname)
         ck.explore(f'{ci.fullname}.mv', sc, T, label='linear-any-number-of-operands', contracts=unb,
                    loop_specs={(f'{ci.fullname}.mv', 0): linear_carry(carry)})
-    unbounded('CompositionOperator', 'x')
-    unbounded('AdditionOperator', 'y')
+    def carried(clsname, default):
+        """the local carried by the loop of <clsname>.mv, read off the AST (the single name the loop body assigns): renaming
+        it must not break the contract"""
+        try:
+            from pyvc.loops import assigned_names
+            node = P.cls(clsname).methods['mv'].node
+            loop = next(n for n in ast.walk(node) if isinstance(n, (ast.For, ast.While)))
+            names = assigned_names(loop.body)
+            return next(iter(names)) if len(names) == 1 else default
+        except Exception:       # noqa: BLE001
+            return default
+    unbounded('CompositionOperator', carried('CompositionOperator', 'x'))
+    unbounded('AdditionOperator', carried('AdditionOperator', 'y'))
 
 
 # ====================================================================== (a') Stokes operators, facet `point`
